@@ -505,7 +505,8 @@ func (r *resolver) resolveRefs(rs *Resolved) error {
 			// the ref still treats it lexically.
 			info.resolvedRef = refSchema
 		}
-		if s.DynamicRef != "" {
+		// Draft-07 does not know $dynamicRef: it is an unknown keyword there and is not followed.
+		if s.DynamicRef != "" && rs.draft != draft7 {
 			refSchema, frag, err := r.resolveRef(rs, s, s.DynamicRef)
 			if err != nil {
 				return err
